@@ -197,6 +197,11 @@ func c11DevCases() []c11DevCase {
 		{Name: "delete-must", Target: "/c/x", Deviate: "delete { must \"a\"; }", Gone: []string{x + "/Musts[0]", x + "/Musts[1]"}, Set: map[string]string{x + "/Musts[0]/Expression": "b", x + "/Musts[0]/_kind": "Must", x + "/Musts[0]/Description": "", x + "/Musts[0]/Reference": "", x + "/Musts[0]/ErrorMessage": "", x + "/Musts[0]/ErrorAppTag": ""}},
 		{Name: "delete-unique", Target: "/c/l", Deviate: "delete { unique \"a\"; }", Gone: []string{at("l") + "/Unique[0]", at("l") + "/Unique[1]", at("l") + "/Unique[2]"}, Set: map[string]string{at("l") + "/Unique[0][0]": "b", at("l") + "/Unique[0][1]": "a", at("l") + "/Unique[1][0]": "k", at("l") + "/Unique[1][1]": "b"}},
 		{Name: "delete-unique-pair", Target: "/c/l", Deviate: "delete { unique \"k b\"; }", Gone: []string{at("l") + "/Unique[2]"}},
+		// one deviate naming several statements of a kind
+		{Name: "delete-two-musts", Target: "/c/x", Deviate: "delete { must \"a\"; must \"b\"; }", Gone: []string{x + "/Musts[0]", x + "/Musts[1]"}},
+		{Name: "delete-two-musts-reversed", Target: "/c/x", Deviate: "delete { must \"b\"; must \"a\"; }", Gone: []string{x + "/Musts[0]", x + "/Musts[1]"}},
+		{Name: "delete-two-uniques", Target: "/c/l", Deviate: "delete { unique \"a\"; unique \"k b\"; }", Gone: []string{at("l") + "/Unique[0]", at("l") + "/Unique[1]", at("l") + "/Unique[2]"}, Set: map[string]string{at("l") + "/Unique[0][0]": "b", at("l") + "/Unique[0][1]": "a"}},
+		{Name: "add-two-musts", Target: "/c/plain", Deviate: "add { must \"q\"; must \"r\"; }", Set: map[string]string{at("plain") + "/Musts[0]/Expression": "q", at("plain") + "/Musts[0]/_kind": "Must", at("plain") + "/Musts[0]/Description": "", at("plain") + "/Musts[0]/Reference": "", at("plain") + "/Musts[0]/ErrorMessage": "", at("plain") + "/Musts[0]/ErrorAppTag": "", at("plain") + "/Musts[1]/Expression": "r", at("plain") + "/Musts[1]/_kind": "Must", at("plain") + "/Musts[1]/Description": "", at("plain") + "/Musts[1]/Reference": "", at("plain") + "/Musts[1]/ErrorMessage": "", at("plain") + "/Musts[1]/ErrorAppTag": ""}},
 		{Name: "delete-units-mismatch", Target: "/c/x", Deviate: "delete { units \"other\"; }", Error: true},
 		{Name: "delete-default-mismatch", Target: "/c/x", Deviate: "delete { default \"other\"; }", Error: true},
 	}
